@@ -12,8 +12,8 @@
 (*                                                                         *)
 (* MofTextInstMC.cfg is the repaired design (= the unchanged tree for      *)
 (* ordinary properties; for embedded-object properties the unchanged tree  *)
-(* is the variant EmbSkipsFalsy) and must pass; it also PRINTS the         *)
-(* universe, which the driver concretises case by case.                    *)
+(* is the variant EmbInnerResets + EmbDropsNullItem) and must pass; it     *)
+(* also PRINTS the universe, which the driver concretises case by case.    *)
 (* MofTextInstMCLegacyNull.cfg (SkipNull) must FAIL; the other wrong       *)
 (* variants, the unchanged tree's embedded branch among them, are refuted  *)
 (* by the ASSUME below (number of refuting cases printed).                 *)
@@ -23,7 +23,8 @@ EXTENDS MofTextInst
 CONSTANTS SkipNull, FillAbsent, OmitNull, EmbSkipsFalsy, Emit
 
 V == [skipNull |-> SkipNull, fillAbsent |-> FillAbsent, omitNull |-> OmitNull,
-      embSkipsFalsy |-> EmbSkipsFalsy]
+      embSkipsFalsy |-> EmbSkipsFalsy, embInnerResets |-> FALSE,
+      embDropsNullItem |-> FALSE]
 
 VARIABLE st
 vars == <<st>>
@@ -37,7 +38,7 @@ WriteMof == /\ st.phase = "object"
 CompileMof == /\ st.phase = "text"
               /\ st' = [st EXCEPT !.phase = "compiled",
                                   !.comp = Compile(st.text, ClassOf(st.c),
-                                                   st.c.emb, V)]
+                                                   st.c, V)]
 Finished == st.phase = "compiled" /\ UNCHANGED st
 Next == WriteMof \/ CompileMof \/ Finished
 Spec == Init /\ [][Next]_vars
@@ -61,13 +62,18 @@ ASSUME /\ \A c \in Universe : RoundTrips(c, Repaired)
                               /\ c.dflt \in {"scalar", "array"}}
        /\ Refuting("fillAbsent") = {c \in Universe : c.gives = "absent"}
        /\ Refuting("omitNull") = {c \in Universe : c.gives = "null"}
-       /\ Refuting("embSkipsFalsy") = PinnedEmbCases
-       /\ \A f \in {"skipNull", "fillAbsent", "omitNull", "embSkipsFalsy"} :
+       /\ Refuting("embSkipsFalsy") = NullOrEmptyEmbCases
+       /\ Refuting("embInnerResets") = NestedEmbCases
+       /\ Refuting("embDropsNullItem") = NullItemEmbCases
+       /\ \A c \in Universe : RoundTrips(c, Pinned) = (c \notin PinnedEmbCases)
+       /\ \A f \in {"skipNull", "fillAbsent", "omitNull", "embSkipsFalsy",
+                     "embInnerResets", "embDropsNullItem"} :
             PrintT(<<"REFUTED", f, Cardinality(Refuting(f))>>)
 
-(* emission of the universe; the last field: the unchanged tree is the     *)
-(* variant that does not round-trip this case                              *)
+(* emission of the universe; the last field: position tag ("nested" and    *)
+(* "null-item": the unchanged tree is the variant that does not round-trip *)
+(* this case)                                                              *)
 ASSUME ~Emit \/ \A c \in Universe :
          PrintT(<<"CASE", c.type, c.arr, c.dflt, c.gives, c.shape, c.emb,
-                  c \in PinnedEmbCases>>)
+                  c.depth, CaseTag(c)>>)
 =============================================================================
